@@ -515,6 +515,11 @@ func TestVerif_C09(t *testing.T) {
 					}
 					m, ok := s.Get()
 					okm, is := m.(*mocrelay.ServerOKMsg)
+					for skipped := 0; ok && !is && skipped < 16; skipped++ {
+						// only the OK replies are constrained; anything else (a NOTICE) is passed over
+						m, ok = s.Get()
+						okm, is = m.(*mocrelay.ServerOKMsg)
+					}
 					rep.Eval(1)
 					if !ok || !is || okm.EventID != ev.ID || okm.Accepted || !strings.HasPrefix(okm.Message(), reason(0, content)) {
 						got := vk.JSON(m)
